@@ -809,6 +809,16 @@ def check(pid, tier, seed):
                             # raised by the harness where that matters); nothing to compare
                             stats["dist"]["fuel-skips"] = stats["dist"].get("fuel-skips", 0) + 1
                             continue
+                        if op == "runprog" and pid == "C05":
+                            # C05 is about cost: the implementation may spend at most K = 4 times the steps and the
+                            # backtrack-store length of the reference ordered search (the executor model), plus a
+                            # constant; an implementation that got cheaper is not reported
+                            mi = re.match(r"((?:[a-z-]+ )*)ok (\d+) (\d+)(.*)$", d["impl"])
+                            mm = re.match(r"((?:[a-z-]+ )*)ok (\d+) (\d+)(.*)$", d["model"])
+                            if mi and mm and mi.group(1) == mm.group(1) and mi.group(4) == mm.group(4) \
+                                    and int(mi.group(2)) <= 4 * int(mm.group(2)) + 64 and int(mi.group(3)) <= 4 * int(mm.group(3)) + 64:
+                                stats["dist"]["cost-differences-within-K"] = stats["dist"].get("cost-differences-within-K", 0) + 1
+                                continue
                         if op == "runprog" and pid != "C05":
                             # interpreted-instruction count and peak stack are part of the tie only where the
                             # property is about them (C05); elsewhere a change of bookkeeping cost alone is not reported
